@@ -44,11 +44,13 @@ impl Src {
             1 => {
                 t.insert("f".into(), Node::file(b"aaaaa", T0 + 101).with_mode(mode));
             }
+            // (values 2 and 3 lie before the epoch with a fraction, exactly one second apart and of
+            // one size: 2 -> 3 is a same-size rewrite whose mtime differs by one whole second there)
             2 => {
-                t.insert("f".into(), Node::file(b"bbbbb", T0 + 102).with_mode(mode));
+                t.insert("f".into(), Node::file(b"bbbbb", T0).with_mtime(-11, 250_000_000).with_mode(mode));
             }
             3 => {
-                t.insert("f".into(), Node::file(b"aaaaa", T0 + 103).with_mode(mode));
+                t.insert("f".into(), Node::file(b"aaaaa", T0).with_mtime(-10, 250_000_000).with_mode(mode));
             }
             4 => {
                 t.insert("f".into(), Node::dir(T0 + 104));
@@ -56,14 +58,6 @@ impl Src {
             5 => {
                 // same size and same whole second as A, other bytes: only the nanoseconds differ
                 t.insert("f".into(), Node::file(b"ccccc", T0 + 101).with_mtime(T0 + 101, 500).with_mode(mode));
-            }
-            6 => {
-                // before the epoch with a fraction ...
-                t.insert("f".into(), Node::file(b"ddddd", T0).with_mtime(-11, 250_000_000).with_mode(mode));
-            }
-            7 => {
-                // ... and rewritten with the same size exactly one second later
-                t.insert("f".into(), Node::file(b"eeeee", T0).with_mtime(-10, 250_000_000).with_mode(mode));
             }
             _ => {}
         }
@@ -143,7 +137,7 @@ impl Src {
 pub fn set_menu(full: bool) -> Vec<(u8, u8)> {
     if full {
         let mut v = Vec::new();
-        for f in 0..=7 {
+        for f in 0..=5 {
             v.push((0, f));
         }
         for g in 0..=3 {
@@ -160,7 +154,7 @@ pub fn set_menu(full: bool) -> Vec<(u8, u8)> {
         v.push((4, 2));
         v
     } else {
-        vec![(0, 2), (0, 3), (0, 4), (0, 5), (0, 6), (0, 7), (0, 0), (1, 2), (2, 2), (4, 1)]
+        vec![(0, 2), (0, 3), (0, 4), (0, 5), (0, 0), (1, 2), (2, 2), (4, 1)]
     }
 }
 
